@@ -60,6 +60,8 @@ def classify(ctx, c):
     lay = ctx.canon.layout(c, 'parse')
     cl = ctx.canon.layout(c, 'compose')
     kinds = {p.kind for p in lay.result.parsers} | {x.kind for x in cl.result.composers}
+    if 'text' in kinds and 'binary' in kinds:
+        return 'mixed'
     if 'text' in kinds:
         return 'text'
     if not kinds:
@@ -90,7 +92,10 @@ def check(ctx, report):
             report.count('C01.R1', 1, nontrivial=0)
             report.undecided.append('%s: %s' % (c.name, nondsl[c.name]))
             continue
-        if kind == 'binary':
+        if kind == 'mixed':
+            # a binary frame around a text body (uint32 length + name-list): text bindings for the body, layout comparison for the frame
+            text_bindings(ctx, c, report)
+        if kind in ('binary', 'mixed'):
             hdr = reviewed.get(c.name, {}).get('strip_header')
             cmpn = compare_class(c, ctx.canon, strip_header=tuple(hdr) if hdr else None)
             n_el = len(cmpn.pairs)
